@@ -173,7 +173,16 @@ class Decl:
         if k == "plain":
             return M(V(p["t"]), "new_unit", ["s", p["sym"]])
         if k == "scaled":
-            kx = num(p["k"], p.get("kkind"))
+            pk = p.get("kkind") or ""
+            kx = num(p["k"], None if pk.startswith(("prefix:", "div:"))
+                     else p.get("kkind"))
+            if pk.startswith("prefix:"):
+                # an SI prefix object as the factor
+                kx = ["g", "quantity.si_prefixes:" + p["kkind"][7:]]
+            if pk.startswith("div:"):
+                # unit / number
+                return M(V(p["t"]), "new_unit", ["s", p["sym"]], name,
+                         OP("/", U(p["parent"]), ["i", int(pk[4:])]))
             if p.get("rmul"):
                 d = OP("*", U(p["parent"]), kx)
             else:
@@ -451,6 +460,15 @@ def random_plan(rng, money=False, max_base=4, max_derived=4, max_units=4,
                 elif dec_str(k) is not None and rng.random() < 0.3:
                     kk = "F"
                 if form == "scaled":
+                    if rng.random() < 0.15:
+                        # SIPrefix * unit / unit * SIPrefix
+                        from .models.si_table import SI_PREFIXES
+                        pn = rng.choice(sorted(SI_PREFIXES))
+                        k, kk = F(10) ** SI_PREFIXES[pn], "prefix:" + pn
+                    elif rng.random() < 0.12:
+                        # unit / number (a Fraction scale for 3, 7, ...)
+                        dn = rng.choice([3, 7, 8, 12, 1000])
+                        k, kk = F(1, dn), "div:%d" % dn
                     add(Decl("scaled", t=tname, sym=sym, k=k, kkind=kk,
                              parent=rng.choice(mine),
                              rmul=rng.random() < 0.3))
